@@ -104,12 +104,17 @@ func (s *set[ElementType]) Replace(elements ds.ReadableSet[ElementType]) (remove
 	return appliedMutations.DeletedElements()
 }
 
-// Decode decodes the set from a byte slice.
+// Decode decodes the set from a byte slice. The decoded elements are added through the regular write path, so that
+// subscribers are notified about them like about any other change (nothing is changed if the decoding fails).
 func (s *set[ElementType]) Decode(api *serix.API, b []byte) (bytesRead int, err error) {
-	s.readableSet.mutex.Lock()
-	defer s.readableSet.mutex.Unlock()
+	decodedElements := ds.NewSet[ElementType]()
+	if bytesRead, err = decodedElements.Decode(api, b); err != nil {
+		return bytesRead, err
+	}
 
-	return s.value.Decode(api, b)
+	s.AddAll(decodedElements)
+
+	return bytesRead, nil
 }
 
 // ReadOnly returns a read-only version of the set.
